@@ -67,12 +67,15 @@ def skipComment : In → In
   | 13 :: t => t
   | _ :: t => skipComment t
 
+/-- one optional `#` comment -/
+def optComment (i1 : In) : In := match i1 with | 35 :: t => skipComment t | _ => i1
+
 /-- `ws`: whitespace and comments, repeated until no progress -/
 def ws : Nat → In → In
   | 0, i => i
   | fuel+1, i =>
     let i1 := multispace0 i
-    let i2 := match i1 with | 35 :: t => skipComment t | _ => i1
+    let i2 := optComment i1
     if i2.length = i.length then i2 else ws fuel i2
 
 def wsF (i : In) : In := ws (i.length + 1) i
